@@ -211,6 +211,46 @@ func c19Run(t *testing.T, r *vrRepo, sn *data.Snapshot, files map[string]string,
 			if err := os.Symlink(dst, path); err != nil {
 				panic(err)
 			}
+		case "symlink-same-out", "symlink-same-in", "symlink-first-out", "symlink-first-in",
+			"symlink-last-out", "symlink-last-in", "symlink-longer-out", "symlink-longer-in":
+			// symlink to a readable regular file that shares blobs (at the same offsets) with the snapshot file
+			parts := strings.Split(c.Pre, "-")
+			var content []byte
+			switch parts[1] {
+			case "same":
+				content = append([]byte{}, S...)
+			case "longer":
+				content = append(append([]byte{}, S...), c19Fill(1000, 0xEE)...)
+			case "first", "last":
+				if len(c.Snap) < 2 {
+					p.appl = false
+					break
+				}
+				content = c19Fill(len(S), 0xEE)
+				if parts[1] == "first" {
+					copy(content, r.blobs[c.Snap[0]])
+				} else {
+					lb := r.blobs[c.Snap[len(c.Snap)-1]]
+					copy(content[len(S)-len(lb):], lb)
+				}
+			}
+			if !p.appl {
+				break
+			}
+			dst := filepath.Join(outside, name+".ptr")
+			if parts[2] == "in" {
+				dst = filepath.Join(target, "zptr_"+name) // inside the target, not part of the snapshot
+			}
+			if err := os.WriteFile(dst, content, 0o644); err != nil {
+				panic(err)
+			}
+			if err := os.Chtimes(dst, mt, mt); err != nil { // the pointee carries the cell's mtime class
+				panic(err)
+			}
+			p.twin = dst
+			if err := os.Symlink(dst, path); err != nil {
+				panic(err)
+			}
 		default:
 			content, perm, hardlink, ok := c19PreContent(c.Pre, c.Snap, S, r)
 			if !ok {
